@@ -61,6 +61,28 @@ static unsigned int type_len_ok(uint8_t type, uint32_t len, unsigned int version
 	}
 }
 
+#ifdef REPORT_LEN_STUB
+/* Contract stub for the static rtr_send_error_pdu (goto-instrument --replace-calls): decides, without the
+ * sender's variable-length arrays (a symbolic VLA size is the one thing CBMC cannot digest here), that
+ * rtr_receive_pdu never asks for more bytes to be encapsulated / copied than it has received and than the
+ * objects it passes hold. The sender itself is decided in rtr_errpdu_unit.c and in the unstubbed jobs. */
+int stub_send_error_pdu(const struct rtr_socket *rtr_socket, const void *erroneous_pdu,
+			       const uint32_t erroneous_pdu_len, const enum pdu_error_type error, const char *err_text,
+			       const uint32_t err_text_len)
+{
+	(void)rtr_socket;
+	(void)error;
+	VASSERT(erroneous_pdu_len <= RTR_MAX_PDU_LEN, "C04: error report asked to encapsulate at most RTR_MAX_PDU_LEN bytes");
+	VASSERT(erroneous_pdu_len <= w_pos - w_pdu_start,
+		"C04: error report asked to encapsulate at most the bytes received of the offending PDU");
+	VASSERT(erroneous_pdu_len == 0 || (erroneous_pdu && __CPROVER_r_ok(erroneous_pdu, erroneous_pdu_len)),
+		"C04: encapsulated bytes lie inside the object passed to the error report sender");
+	VASSERT(err_text_len == 0 || (err_text && __CPROVER_r_ok(err_text, err_text_len)),
+		"C04: error text bytes lie inside the object passed to the error report sender");
+	return ND_BOOL("errpdu_send_fails") ? RTR_ERROR : RTR_SUCCESS;
+}
+#endif
+
 void harness(void)
 {
 	struct rtr_socket sock;
